@@ -43,6 +43,7 @@ def prepare(fmt, S, h, seed):
     if key in _PREP:
         return _PREP[key]
     boot.urandom.reset(seed, b"c11-prep")
+    ms.reset_clock()
     contents = [pattern(10 * seed + j, 20 + j) for j in range(1, h + 1)]
     g = grid.Grid(S, client_kw=dict(k=K, n=N, happy=1))
     try:
@@ -135,6 +136,7 @@ def execute(case, prefix, seed):
     si = prep["si"]
     ch = grid.Chooser(prefix)
     boot.urandom.reset(seed, b"c11-exec")
+    ms.reset_clock()
     g = grid.Grid(S, nclients=1 if phase == "read" else 2, chooser=ch, client_kw=dict(k=K, n=N, happy=1))
     viol, obs = [], {}
     ms.bound_pending(g)
@@ -353,9 +355,9 @@ def run(tier, seed):
         plan += [(f, 4, 2, "publish", 1) for f in ("SDMF", "MDMF")] + [("SDMF", 4, 3, "publish", 0), ("MDMF", 5, 2, "publish", 0)]
     else:
         plan = [(f, 4, 3, "read", 2) for f in ("SDMF", "MDMF")] + [("SDMF", 5, 4, "read-warm", 1), ("MDMF", 6, 4, "read-warm", 1)]
-        plan += [("SDMF", 4, 6, "read", 1), ("MDMF", 5, 5, "read-warm", 0), ("SDMF", 6, 3, "read-warm", 2)]
+        plan += [("SDMF", 4, 6, "read", 1), ("MDMF", 5, 5, "read-warm", 0), ("SDMF", 6, 3, "read-warm", 1)]
         plan += [("SDMF", 10, 2, "spread-warm-dead", 0), ("MDMF", 10, 3, "spread-warm", 0), ("SDMF", 12, 2, "spread-cold", 0), ("MDMF", 9, 2, "spread-warm", 1)]
-        plan += [(f, 4, 3, "publish", 1) for f in ("SDMF", "MDMF")] + [("SDMF", 4, 4, "publish", 0), ("MDMF", 5, 3, "publish", 0), ("SDMF", 6, 2, "publish", 1), ("SDMF", 4, 6, "publish", 0)]
+        plan += [("SDMF", 4, 3, "publish", 1), ("MDMF", 4, 3, "publish", 0), ("SDMF", 4, 4, "publish", 0), ("MDMF", 5, 3, "publish", 0), ("SDMF", 6, 2, "publish", 1), ("SDMF", 4, 6, "publish", 0)]
     res = common.Result()
     desc = []
     seen_prep = set()
